@@ -35,6 +35,8 @@ def lib_rule(nr):
         else:
             tv = MatchMapping({mk(v): mk(i) for v, i in f['tv'][1]})
         fds.append(RuleFieldDescriptor(id_of(f['fid']), f['len'], f['pos'], DIRS[f['dir']], tv, MOS[f['mo']], CDAS[f['cda']]))
+    if nr['nature'] == 'F':
+        return RuleDescriptor(id=mk(nr['id']), nature=RuleNature.FRAGMENTATION, field_descriptors=fds)
     return RuleDescriptor(id=mk(nr['id']), field_descriptors=fds)
 
 
